@@ -88,3 +88,143 @@ package promapi
 // the callee's precondition is an obligation at the call site.
 //@ func Prometheus.RangeQuery [C13]
 //@   at call sliceRange assert step > 0 && step <= 4*time.Hour ==> queryStep % step == 0
+
+// ---------------------------------------------------------------------------------------------
+// C15: failover happens on unavailability only.
+// errors.As(err, *APIError) is modelled by the pair errorsAs / errorsAsVal (assumption A5).
+
+//@ spec func unavailable(e error) bool = errorsAs(e, APIError) ==> errorsAsVal(e, APIError).ErrorType == v1.ErrServer
+//@ spec func unsupported(e error) bool = errorsIs(e, ErrUnsupported)
+
+//@ func IsUnavailableError [C15]
+//@   ensures result == unavailable(err)
+//@   safe
+
+//@ func isUnsupportedError [C15]
+//@   ensures result <==> (errorsAs(err, APIError) && errorsAsVal(err, APIError).ErrorType == ErrAPIUnsupported)
+//@   safe
+
+//@ func decodeErrorType [C15]
+//@   ensures s == "bad_data" ==> result == v1.ErrBadData
+//@   ensures s == "timeout" ==> result == v1.ErrTimeout
+//@   ensures s == "canceled" ==> result == v1.ErrCanceled
+//@   ensures s == "execution" ==> result == v1.ErrExec
+//@   ensures s == "bad_response" ==> result == v1.ErrBadResponse
+//@   ensures s == "server_error" ==> result == v1.ErrServer
+//@   ensures s == "client_error" ==> result == v1.ErrClient
+//@   ensures !(s == "bad_data" || s == "timeout" || s == "canceled" || s == "execution" || s == "bad_response" || s == "server_error" || s == "client_error") ==> result == ErrUnknown
+//@   safe
+
+// Ghost trace of the upstream calls made by one failover request: whether any call was made, and the error,
+// answer and upstream of the most recent one. An upstream is only contacted when every earlier one failed with
+// an unavailability error; the request's outcome is the outcome of the last upstream contacted.
+
+//@ func FailoverGroup.Query [C15]
+//@   requires fg != nil && len(fg.servers) >= 1
+//@   ghost called bool
+//@   ghost lastErr error
+//@   ghost lastRes *QueryResult
+//@   ghost lastURI string
+//@   at call Prometheus.Query assert called ==> lastErr != nil && unavailable(lastErr)
+//@   after call Prometheus.Query set called = true
+//@   after call Prometheus.Query set lastErr = result1
+//@   after call Prometheus.Query set lastRes = result0
+//@   after call Prometheus.Query set lastURI = arg0.safeURI
+//@   loop 1 invariant iter >= 0 && (called <==> iter >= 1)
+//@   loop 1 invariant called ==> lastErr != nil && unavailable(lastErr) && err == lastErr && uri == lastURI
+//@   ensures called
+//@   ensures err == nil ==> lastErr == nil && qr == lastRes
+//@   ensures err != nil ==> lastErr != nil && dyn(err, *FailoverGroupError) &&
+//@              unbox(err, *FailoverGroupError).err == lastErr &&
+//@              unbox(err, *FailoverGroupError).uri == lastURI &&
+//@              unbox(err, *FailoverGroupError).isStrict == fg.strictErrors
+//@   ensures err != nil && !unavailable(lastErr) ==> qr == lastRes
+
+//@ func FailoverGroup.RangeQuery [C15]
+//@   requires fg != nil && len(fg.servers) >= 1
+//@   ghost called bool
+//@   ghost lastErr error
+//@   ghost lastRes *RangeQueryResult
+//@   ghost lastURI string
+//@   at call Prometheus.RangeQuery assert called ==> lastErr != nil && unavailable(lastErr)
+//@   after call Prometheus.RangeQuery set called = true
+//@   after call Prometheus.RangeQuery set lastErr = result1
+//@   after call Prometheus.RangeQuery set lastRes = result0
+//@   after call Prometheus.RangeQuery set lastURI = arg0.safeURI
+//@   loop 1 invariant iter >= 0 && (called <==> iter >= 1)
+//@   loop 1 invariant called ==> lastErr != nil && unavailable(lastErr) && err == lastErr && uri == lastURI
+//@   ensures called
+//@   ensures err == nil ==> lastErr == nil && rqr == lastRes
+//@   ensures err != nil ==> lastErr != nil && dyn(err, *FailoverGroupError) &&
+//@              unbox(err, *FailoverGroupError).err == lastErr &&
+//@              unbox(err, *FailoverGroupError).uri == lastURI &&
+//@              unbox(err, *FailoverGroupError).isStrict == fg.strictErrors
+//@   ensures err != nil && !(unavailable(lastErr)) ==> rqr == lastRes
+
+//@ func FailoverGroup.Config [C15]
+//@   requires fg != nil && len(fg.servers) >= 1
+//@   ghost called bool
+//@   ghost lastErr error
+//@   ghost lastRes *ConfigResult
+//@   ghost lastURI string
+//@   at call Prometheus.Config assert called ==> lastErr != nil && (unavailable(lastErr) || unsupported(lastErr))
+//@   after call Prometheus.Config set called = true
+//@   after call Prometheus.Config set lastErr = result1
+//@   after call Prometheus.Config set lastRes = result0
+//@   after call Prometheus.Config set lastURI = arg0.safeURI
+//@   loop 1 invariant iter >= 0 && (called <==> iter >= 1)
+//@   loop 1 invariant called ==> lastErr != nil && (unavailable(lastErr) || unsupported(lastErr)) && err == lastErr && uri == lastURI
+//@   ensures called
+//@   ensures err == nil ==> lastErr == nil && cfg == lastRes
+//@   ensures err != nil ==> lastErr != nil && dyn(err, *FailoverGroupError) &&
+//@              unbox(err, *FailoverGroupError).err == lastErr &&
+//@              unbox(err, *FailoverGroupError).uri == lastURI &&
+//@              unbox(err, *FailoverGroupError).isStrict == fg.strictErrors
+
+//@ func FailoverGroup.Metadata [C15]
+//@   requires fg != nil && len(fg.servers) >= 1
+//@   ghost called bool
+//@   ghost lastErr error
+//@   ghost lastRes *MetadataResult
+//@   ghost lastURI string
+//@   at call Prometheus.Metadata assert called ==> lastErr != nil && (unavailable(lastErr) || unsupported(lastErr))
+//@   after call Prometheus.Metadata set called = true
+//@   after call Prometheus.Metadata set lastErr = result1
+//@   after call Prometheus.Metadata set lastRes = result0
+//@   after call Prometheus.Metadata set lastURI = arg0.safeURI
+//@   loop 1 invariant iter >= 0 && (called <==> iter >= 1)
+//@   loop 1 invariant called ==> lastErr != nil && (unavailable(lastErr) || unsupported(lastErr)) && err == lastErr && uri == lastURI
+//@   ensures called
+//@   ensures err == nil ==> lastErr == nil && metadata == lastRes
+//@   ensures err != nil ==> lastErr != nil && dyn(err, *FailoverGroupError) &&
+//@              unbox(err, *FailoverGroupError).err == lastErr &&
+//@              unbox(err, *FailoverGroupError).uri == lastURI &&
+//@              unbox(err, *FailoverGroupError).isStrict == fg.strictErrors
+//@   ensures err != nil && !((unavailable(lastErr) || unsupported(lastErr))) ==> metadata == lastRes
+
+//@ func FailoverGroup.Flags [C15]
+//@   requires fg != nil && len(fg.servers) >= 1
+//@   ghost called bool
+//@   ghost lastErr error
+//@   ghost lastRes *FlagsResult
+//@   ghost lastURI string
+//@   at call Prometheus.Flags assert called ==> lastErr != nil && (unavailable(lastErr) || unsupported(lastErr))
+//@   after call Prometheus.Flags set called = true
+//@   after call Prometheus.Flags set lastErr = result1
+//@   after call Prometheus.Flags set lastRes = result0
+//@   after call Prometheus.Flags set lastURI = arg0.safeURI
+//@   loop 1 invariant iter >= 0 && (called <==> iter >= 1)
+//@   loop 1 invariant called ==> lastErr != nil && (unavailable(lastErr) || unsupported(lastErr)) && err == lastErr && uri == lastURI
+//@   ensures called
+//@   ensures err == nil ==> lastErr == nil && flags == lastRes
+//@   ensures err != nil ==> lastErr != nil && dyn(err, *FailoverGroupError) &&
+//@              unbox(err, *FailoverGroupError).err == lastErr &&
+//@              unbox(err, *FailoverGroupError).uri == lastURI &&
+//@              unbox(err, *FailoverGroupError).isStrict == fg.strictErrors
+
+// Upstream request methods: used through their (empty) contracts at call sites so that the failover proofs stay
+// modular; their bodies (worker queue, cache, HTTP) are not part of C15.
+//@ func Prometheus.Query
+//@ func Prometheus.Config
+//@ func Prometheus.Flags
+//@ func Prometheus.Metadata
